@@ -101,7 +101,8 @@ def next_section(name="", report=MAIN_REPORT):
         if source['independent']:
             new_code = ''.join(sections[section_index])
             old_code = ''.join(sections[:section_index])
-            report.submission.set_line_offset(len(old_code.split("\n"))-1)
+            # Count line breaks the way Python's parser does (\r\n, \r and \n)
+            report.submission.set_line_offset(len(re.split(r'\r\n|\r|\n', old_code))-1)
         else:
             new_code = ''.join(sections[:section_index + 1])
         report.submission.replace_main(new_code)
